@@ -185,6 +185,17 @@ func checkC03(c *Ctx, r *Report) {
 		if fn == crc || !callsDirect(fn, crc) {
 			continue
 		}
+		// a verifying entry point can reject: it has an error result (a helper that merely appends
+		// or computes a CRC is not one)
+		hasErr := false
+		for i := 0; i < fn.Signature.Results().Len(); i++ {
+			if isErrorType(fn.Signature.Results().At(i).Type()) {
+				hasErr = true
+			}
+		}
+		if !hasErr {
+			continue
+		}
 		nver++
 		r.instance("R3.2", 1)
 		r.funcs[fnID(fn)] = true
